@@ -117,11 +117,17 @@ def clip_problems(font, g, act, tol):
     if colr.version == 0 or not getattr(colr.table, "ClipList", None):
         return []
     box = colr.table.ClipList.clips.get(g)
-    pts = [p for it, _ in picture.flatten(act) for poly in it[1] for p in poly]
-    if box is None or not pts:
+    if box is None:
         return []
-    xs, ys = [p[0] for p in pts], [p[1] for p in pts]
-    cut = max(box.xMin - min(xs), box.yMin - min(ys), max(xs) - box.xMax, max(ys) - box.yMax)
-    if cut > tol:
-        return [f"the ClipBox ({box.xMin}, {box.yMin}, {box.xMax}, {box.yMax}) cuts {cut:.1f} units off the painted outlines ({min(xs):.1f}, {min(ys):.1f}, {max(xs):.1f}, {max(ys):.1f})"]
+    for it, _ in picture.flatten(act):
+        pts = [p for poly in it[1] for p in poly]
+        if not pts:
+            continue
+        xs, ys = [p[0] for p in pts], [p[1] for p in pts]
+        cut = max(box.xMin - min(xs), box.yMin - min(ys), max(xs) - box.xMax, max(ys) - box.yMax)
+        # the box is computed from unrounded outlines: the compiled donor is rounded to integers and then
+        # magnified by the transform that places it (C05: "rounding error scaled by the transform")
+        scale = max(1.0, it[4] if len(it) > 4 else 1.0)
+        if cut > tol + 0.75 * scale:
+            return [f"the ClipBox ({box.xMin}, {box.yMin}, {box.xMax}, {box.yMax}) cuts {cut:.1f} units off a painted outline ({min(xs):.1f}, {min(ys):.1f}, {max(xs):.1f}, {max(ys):.1f}) placed at scale {scale:.2f}"]
     return []
